@@ -37,6 +37,9 @@ func TestVerifC02(t *testing.T) {
 	res := vwRun(r, "replication-world/C02/deep", o, st, ev.Pick(r, 4, 5), ev.Pick(r, 1, 1), note)
 	res2 := vwRun(r, "replication-world/C02/faulty", o, st, ev.Pick(r, 3, 4), ev.Pick(r, 2, 2), note)
 	res.States += res2.States
+	// seeded stale-donor boxes (c02_donor_test.go): one remote donor answer per Install may be a
+	// self-consistent page forked at the proposal that holds the certified committed offset.
+	vw3Box(r, o, st, note)
 	// MessageDB-backed boxes: every node's durable log is a real channelstore.MessageDBFactory
 	// store (pkg/db/message exact-base append incl. its sequenced fast path for
 	// ServerAllocatedMessageIDs, ReplaceRecoverySuffix) on its own crash-capturing volume;
